@@ -975,3 +975,52 @@ def check_state_derived_agree(prog, rep, rels, rule='STATE-derived-agree'):
                                   'differs from the constructed one' %
                                   (k, unparse(y)[:50], unparse(cands[0])[:50]), y.lineno)
     return n
+
+
+# ---------------------------------------------------------------------------------------------
+# PERM-mixed-direction: within one function a permutation p re-orders co-indexed arrays either by
+# GATHER (`new = old[p]`) or by SCATTER (`new[p] = old`); the two are inverse to each other. Using
+# both directions for the same p on data that belong together (charges gathered, block sizes
+# scattered) puts the block sizes of one charge next to another charge whenever p is not an
+# involution. The construction of an inverse permutation (`inv[p] = arange(..)`) is the one
+# legitimate scatter.
+def check_perm_mixed_direction(prog, rep, rels, rule='PERM-mixed-direction'):
+    import ast
+    from .core import unparse, key_text, call_name
+    n = 0
+    for rel in rels:
+        m = prog.module(rel)
+        rep.unit(m)
+        for q, f in m.functions.items():
+            gathers, scatters = {}, {}
+            for st in ast.walk(f):
+                if isinstance(st, ast.Assign):
+                    for t in st.targets:
+                        if isinstance(t, ast.Subscript) and isinstance(t.slice, ast.Name) and \
+                                not (isinstance(st.value, ast.Call) and (call_name(st.value) or
+                                     '').split('.')[-1] == 'arange'):
+                            scatters.setdefault(t.slice.id, []).append(st)
+                for x in ast.walk(st) if isinstance(st, (ast.Assign, ast.Expr, ast.Return)) else ():
+                    if isinstance(x, ast.Subscript) and isinstance(x.ctx, ast.Load):
+                        idx = x.slice
+                        if isinstance(idx, ast.Tuple) and idx.elts:
+                            idx = idx.elts[0]
+                        if isinstance(idx, ast.Name):
+                            gathers.setdefault(idx.id, []).append(x)
+            for p in sorted(set(gathers) & set(scatters)):
+                if 'perm' not in p.lower():
+                    continue
+                n += 1
+                st = scatters[p][0]
+                rep.violation(rule, m, q, 'scatter-and-gather:' + p,
+                              '`%s` scatters with the permutation `%s` while `%s` gathers with it '
+                              'in the same function: the two re-orderings are inverse to each '
+                              'other, data that belong together end up at different positions '
+                              'unless the permutation is an involution'
+                              % (key_text(st)[:50], p, unparse(gathers[p][0])[:40]), st.lineno)
+            for p in sorted(set(gathers) | set(scatters)):
+                if 'perm' in p.lower() and not (p in gathers and p in scatters):
+                    n += 1
+                    rep.instance(rule, {'function': q, 'permutation': p,
+                                        'direction': 'gather' if p in gathers else 'scatter'})
+    return n
